@@ -258,6 +258,9 @@ def check_kind(chk, tier, kind, stats, model_ok, lines, checks):
             chk.nontrivial("msg:%s:%r" % (kind, kc[1]))
         chk.nontrivial("%s:%s:%d" % (kind, kc[0], len(w)))
         if not (ku == kc == kf):
+            stats["stream_mismatches_" + kind] = stats.get("stream_mismatches_" + kind, 0) + 1
+            if stats["stream_mismatches_" + kind] > 3:
+                continue          # one defect shows on many streams: three replays are enough
             chk.violation("input", {
                 "input": " ".join(w), "which": kind,
                 "observed": "loaded parser %r; cached tables %r" % (ku[:3], kc[:3]),
